@@ -34,9 +34,9 @@ fn res_unit(r: vhost::Result<()>) -> Val {
     }
 }
 
-struct Ctx {
-    fdt: FdTable,
-    eventfds: std::collections::HashMap<u64, EventFd>,
+pub struct Ctx {
+    pub fdt: FdTable,
+    pub eventfds: std::collections::HashMap<u64, EventFd>,
 }
 
 impl Ctx {
@@ -46,27 +46,25 @@ impl Ctx {
         }
         self.fdt.get(id)
     }
+    /// the API wants an `&EventFd`; the library only forwards its raw descriptor, so a memfd in an
+    /// EventFd wrapper does, and it can be identified by inode like every other descriptor
     fn evfd(&mut self, id: u64) -> &EventFd {
-        self.eventfds.entry(id).or_insert_with(|| EventFd::new(libc::EFD_NONBLOCK).unwrap())
+        if !self.eventfds.contains_key(&id) {
+            let fd = self.fdt.get(id);
+            let d = unsafe { libc::dup(fd) };
+            self.eventfds.insert(id, unsafe { EventFd::from_raw_fd(d) });
+        }
+        self.eventfds.get(&id).unwrap()
     }
-    /// identity of a descriptor received by the peer: memfds by inode, eventfds by their shared counter
     fn id_of(&self, fd: RawFd) -> u64 {
-        let id = self.fdt.id_of_fd(fd);
-        if id != 9999 {
-            return id;
-        }
-        let one: u64 = 1;
-        let w = unsafe { libc::write(fd, &one as *const u64 as *const libc::c_void, 8) };
-        if w == 8 {
-            for (k, e) in self.eventfds.iter() {
-                if let Ok(v) = e.read() {
-                    if v >= 1 {
-                        return *k;
-                    }
-                }
-            }
-        }
-        9999
+        self.fdt.id_of_fd(fd)
+    }
+}
+
+struct Borrowed(RawFd);
+impl AsRawFd for Borrowed {
+    fn as_raw_fd(&self) -> RawFd {
+        self.0
     }
 }
 
@@ -75,7 +73,7 @@ fn get(a: &[u64], i: usize) -> u64 {
 }
 
 #[allow(clippy::too_many_arguments)]
-fn call_op(fe: &mut Frontend, cx: &mut Ctx, name: &str, a: &[u64], bytes: &[u8], fds: &[u64], regions: &[Vec<u64>]) -> Val {
+pub fn call_op(fe: &mut Frontend, cx: &mut Ctx, name: &str, a: &[u64], bytes: &[u8], fds: &[u64], regions: &[Vec<u64>]) -> Val {
     match name {
         "set_hdr_flags" => {
             fe.set_hdr_flags(VhostUserHeaderFlag::from_bits_truncate(get(a, 0) as u32));
@@ -130,7 +128,7 @@ fn call_op(fe: &mut Frontend, cx: &mut Ctx, name: &str, a: &[u64], bytes: &[u8],
         },
         "set_vring_call" | "set_vring_kick" | "set_vring_err" => {
             let id = get(fds, 0);
-            let e = cx.evfd(id).try_clone().unwrap();
+            let e = unsafe { EventFd::from_raw_fd(libc::dup(cx.evfd(id).as_raw_fd())) };
             let r = match name {
                 "set_vring_call" => fe.set_vring_call(get(a, 0) as usize, &e),
                 "set_vring_kick" => fe.set_vring_kick(get(a, 0) as usize, &e),
@@ -158,8 +156,7 @@ fn call_op(fe: &mut Frontend, cx: &mut Ctx, name: &str, a: &[u64], bytes: &[u8],
         "set_config" => res_unit(fe.set_config(get(a, 0) as u32, VhostUserConfigFlags::from_bits_retain(get(a, 1) as u32), bytes)),
         "set_backend_request_fd" => {
             let fd = cx.raw(get(fds, 0));
-            let f = unsafe { std::fs::File::from_raw_fd(libc::dup(fd)) };
-            res_unit(fe.set_backend_request_fd(&f))
+            res_unit(fe.set_backend_request_fd(&Borrowed(fd)))
         }
         "get_shared_object" => {
             let mut u = [0u8; 16];
@@ -231,7 +228,7 @@ fn call_op(fe: &mut Frontend, cx: &mut Ctx, name: &str, a: &[u64], bytes: &[u8],
     }
 }
 
-fn nums(v: &Val) -> Vec<u64> {
+pub fn nums(v: &Val) -> Vec<u64> {
     v.as_l().unwrap_or(&[]).iter().map(|x| x.as_u64().unwrap_or(0)).collect()
 }
 
